@@ -23,6 +23,7 @@ def run(ctx, replay=None):
             for k, v in case['tags'].items():
                 ctx.count(k, v)
             ctx.count('model', case['model'])
+            ctx.count('dist_func', case.get('dist_func', 'euclidean'))
             ctx.count('tolerance', case['tolerance'] if case['tolerance'] in (0, 45, 90, 180, 360) else 'other')
             ctx.count('|azimuth|>90', abs(case['azimuth']) > 90)
             try:
@@ -30,7 +31,9 @@ def run(ctx, replay=None):
                 mask = np.asarray(DV._direction_mask(), bool)
                 ang = np.asarray(DV._angles, float)
                 ed = np.asarray(DV._euclidean_dist, float)
-                bw = float(DV.bandwidth)
+                bw = dc.resolved_bandwidth(case)
+                if not gen.close(bw, float(DV.bandwidth), 1e-12, 1e-12):
+                    ctx.problem('oracle', 'the bandwidth in effect is not the bandwidth that was passed', case, {'passed': case['bandwidth'], 'resolved': bw, 'in_effect': float(DV.bandwidth)}, {'what': 'bandwidth-in-effect'})
                 edges = np.asarray(DV.bins, float)
                 G = np.asarray(DV.lag_groups())
                 D = np.asarray(DV.distance, float)
